@@ -388,36 +388,28 @@ fn c06_q_broadcast_read() {
 // Capacity expansion (has_capacity / expanded_layout, used by append/concat):
 // shared by C06 and C08 ("accepted as non-overlapping for capacity expansion").
 
-/// A contiguous or column-stepped owned tensor with spare Vec capacity: if
+/// A contiguous or row-padded owned tensor with spare Vec capacity: if
 /// `has_capacity(axis, new_size)` says the tensor can grow in place, then in
 /// the grown layout two distinct valid indices never share an offset and every
-/// offset is inside the Vec's capacity.
+/// offset is inside the Vec's capacity. (axis, new_size) are concrete per
+/// harness -- a symbolic new size makes the overlap check's products symbolic
+/// by symbolic, which does not finish -- and the two indices are symbolic.
 macro_rules! expand_capacity {
-    ($name:ident, [$d0:expr, $d1:expr], [$s0:expr, $s1:expr], $cap:expr) => {
+    ($name:ident, [$d0:expr, $d1:expr], [$s0:expr, $s1:expr], $cap:expr, $axis:expr, $new:expr, $expect:expr) => {
         #[kani::proof]
         #[kani::unwind(20)]
         fn $name() {
             let mut data: Vec<u8> = Vec::with_capacity($cap);
             let need = ($d0 - 1) * $s0 + ($d1 - 1) * $s1 + 1;
-            let mut k = 0;
-            while k < need {
-                data.push(0);
-                k += 1;
-            }
+            data.resize(need, 0);
             let cap = data.capacity();
-            let t = match NdTensor::<u8, 2>::from_data_with_strides([$d0, $d1], data, [$s0, $s1]) {
-                Ok(t) => t,
-                Err(_) => return,
-            };
-            let axis: usize = kani::any();
-            let new_size: usize = kani::any();
-            kani::assume(axis < 2 && new_size <= 5);
-            let ok = t.has_capacity(axis, new_size);
-            kani::cover!(ok && new_size > t.size(axis), "growth accepted");
-            kani::cover!(!ok, "growth rejected");
+            let t = NdTensor::<u8, 2>::from_data_with_strides([$d0, $d1], data, [$s0, $s1]).unwrap();
+            let ok = t.has_capacity($axis, $new);
+            kani::cover!(true, "has_capacity returned");
+            assert!(ok == $expect, "has_capacity differs from the expected answer for this instance");
             if ok {
                 let mut shape = [$d0, $d1];
-                shape[axis] = new_size;
+                shape[$axis] = $new;
                 let strides = [$s0, $s1];
                 let i: [usize; 2] = kani::any();
                 let j: [usize; 2] = kani::any();
@@ -429,12 +421,17 @@ macro_rules! expand_capacity {
                 assert!(oi != oj, "capacity expansion accepted an overlapping layout");
                 assert!(oi < cap && oj < cap, "capacity expansion accepted a layout larger than the buffer");
             }
+            std::mem::forget(t);
         }
     };
 }
-expand_capacity!(c08_q_expand_contig_2x2_cap8, [2, 2], [2, 1], 8);
-expand_capacity!(c08_t_expand_contig_2x2_cap16, [2, 2], [2, 1], 16);
-expand_capacity!(c08_t_expand_contig_3x1_cap12, [3, 1], [1, 1], 12);
-expand_capacity!(c08_t_expand_padded_2x2_cap16, [2, 2], [4, 1], 16);
-expand_capacity!(c06_t_expand_contig_2x3_cap16, [2, 3], [3, 1], 16);
-expand_capacity!(c06_q_expand_contig_2x2_cap8, [2, 2], [2, 1], 8);
+// contiguous 2x2 in a Vec of capacity 8
+expand_capacity!(c08_q_expand_2x2_axis1_to_3, [2, 2], [2, 1], 8, 1, 3, false); // inner axis: rows would overlap
+expand_capacity!(c08_q_expand_2x2_axis0_to_3, [2, 2], [2, 1], 8, 0, 3, true); // outer axis: fits
+expand_capacity!(c08_t_expand_2x2_axis0_to_5, [2, 2], [2, 1], 8, 0, 5, false); // exceeds capacity
+expand_capacity!(c08_t_expand_2x2_axis1_to_2, [2, 2], [2, 1], 8, 1, 2, true); // no growth
+// rows padded to stride 4: the inner axis can grow up to the padding
+expand_capacity!(c08_t_expand_padded_axis1_to_4, [2, 2], [4, 1], 16, 1, 4, true);
+expand_capacity!(c08_t_expand_padded_axis1_to_5, [2, 2], [4, 1], 16, 1, 5, false);
+expand_capacity!(c06_q_expand_2x3_axis1_to_4, [2, 3], [3, 1], 16, 1, 4, false);
+expand_capacity!(c06_t_expand_2x3_axis0_to_4, [2, 3], [3, 1], 16, 0, 4, true);
